@@ -389,6 +389,147 @@ private theorem rstep_allowed (auth : Bool) (m : Mode) (tn : Bool) (s : CState) 
               | (subst hw; simp_all)
               | skip)
 
+private theorem rstep_cinv (auth : Bool) (m : Mode) (tn : Bool) (s : CState) (e : REv) (h : CInv m tn s) :
+    CInv m (tn || ((rstep auth m tn s e).2.kind == Kind.tunnel)) (rstep auth m tn s e).1 := by
+  obtain ⟨h1, h2, h3⟩ := h
+  unfold rstep
+  cases hp : s.phase with
+  | closed => exact ⟨by simp [hp], by simpa using h2, by intro c hc; simpa [hp] using h3 c hc⟩
+  | outer =>
+    cases e with
+    | connect host port =>
+      by_cases hm : m.isHttpProxy = true
+      · simp only [hm, if_true]
+        refine ⟨by simp [hm], by simp, ?_⟩
+        intro c hc
+        simp only [Option.some.injEq] at hc
+        subst hc
+        cases m <;> simp_all [Mode.isHttpProxy]
+      · simp only [hm, Bool.false_eq_true, if_false]
+        refine ⟨by simp, by simpa using h2, ?_⟩
+        intro c hc
+        have := h3 c hc
+        simp only at hc ⊢
+        exact ⟨this.1, fun hv => ⟨(this.2.1 hv).1, by simp⟩, this.2.2⟩
+    | req host port https =>
+      by_cases hm : m.isHttpProxy = true
+      · simp only [hm, Bool.true_and, beq_self_eq_true, if_true]
+        cases hf : s.pool.find? (fun c => c.matches host port https (m == Mode.upstream)) with
+        | some c =>
+          simp only
+          by_cases hsc : c.sendConnect = true
+          · simp only [hsc, if_true]
+            exact ⟨by simp [hp], by simpa using h2, by intro c' hc'; simpa [hp] using h3 c' hc'⟩
+          · simp only [hsc, Bool.false_eq_true, if_false]
+            exact ⟨by simp [hp], by simpa using h2, by intro c' hc'; simpa [hp] using h3 c' hc'⟩
+        | none =>
+          simp only
+          refine ⟨by simp [hp], ?_, by intro c' hc'; simpa [hp] using h3 c' hc'⟩
+          intro c hc
+          simp only [List.mem_append, List.mem_singleton] at hc
+          rcases hc with hc | rfl
+          · exact h2 c hc
+          · cases m <;> simp_all
+      · simp only [hm, Bool.false_and, Bool.false_eq_true, if_false]
+        cases hc : s.ctx with
+        | none => exact ⟨by simp, by simpa using h2, by simp⟩
+        | some c0 =>
+          simp only
+          have hc0 := h3 c0 hc
+          refine ⟨by simp [hp], by simpa using h2, ?_⟩
+          intro c' hc'
+          simp only [Option.some.injEq] at hc'
+          subst hc'
+          by_cases hu : s.ctxUsed = true <;> simp_all
+  | tunnel =>
+    obtain ⟨htn, hmp⟩ := h1 hp
+    cases e with
+    | connect host port =>
+      refine ⟨by simp, by simpa using h2, ?_⟩
+      intro c hc
+      have := h3 c hc
+      simp only at hc ⊢
+      exact ⟨this.1, fun hv => ⟨(this.2.1 hv).1, by simp⟩, this.2.2⟩
+    | req host port https =>
+      have hne : ((RPhase.tunnel == RPhase.outer) = false) := by decide
+      simp only [hmp, Bool.true_and, hne, Bool.false_eq_true, if_false]
+      cases hc : s.ctx with
+      | none => exact ⟨by simp, by simpa using h2, by simp⟩
+      | some c0 =>
+        simp only
+        have hc0 := h3 c0 hc
+        refine ⟨by simp [hp, htn, hmp], by simpa using h2, ?_⟩
+        intro c' hc'
+        simp only [Option.some.injEq] at hc'
+        subst hc'
+        by_cases hu : s.ctxUsed = true <;> simp_all
+
+/-- invariant of the whole proxy: every client connection satisfies `CInv` with its membership in `tunneled` -/
+private def RInv (modes : Nat → Mode) (σ : RState) : Prop :=
+  ∀ c, CInv (modes c) (σ.tunneled.contains c) (σ.conns c)
+
+private theorem rinv_init (modes : Nat → Mode) : RInv modes (RState.init modes) := by
+  intro c; simpa [RState.init] using cinv_init (modes c)
+
+/-- **C24 on the routing model, over whole histories** (connection reuse, Host ≠ destination, scheme changes, any
+    number of client connections): a write that carries the configured credential is read by the upstream proxy in
+    upstream mode or by the reverse target in reverse mode — where "who reads it" is *derived* from the predicted
+    connection parameters (`via`, CONNECT-first, address), not observed. -/
+theorem route_creds_only_to_proxy_or_reverse_target (auth : Bool) (modes : Nat → Mode) :
+    ∀ (es : List (Nat × REv)) (σ : RState), RInv modes σ →
+      ∀ x ∈ rrun auth modes σ es, ∀ c, x.2.conn = some c → ∀ w ∈ x.2.writes, w.cred ≠ none →
+        (partyOf (modes x.1) c w = .proxy ∧ modes x.1 = .upstream) ∨
+        (partyOf (modes x.1) c w = .reverseTarget ∧ modes x.1 = .reverse) := by
+  intro es
+  induction es with
+  | nil => intro σ _ x hx; simp [rrun] at hx
+  | cons ev rest ih =>
+    intro σ hinv x hx
+    obtain ⟨cid, e⟩ := ev
+    simp only [rrun, List.mem_cons] at hx
+    rcases hx with rfl | hx
+    · exact rstep_allowed auth (modes cid) _ _ e (hinv cid)
+    · refine ih _ ?_ x hx
+      have hstep := rstep_cinv auth (modes cid) (σ.tunneled.contains cid) (σ.conns cid) e (hinv cid)
+      by_cases hk : (rstep auth (modes cid) (σ.tunneled.contains cid) (σ.conns cid) e).2.kind = Kind.tunnel
+      · intro c
+        simp only [hk, if_true]
+        by_cases hc : c = cid
+        · subst hc
+          simp only [hk, beq_self_eq_true, Bool.or_true] at hstep
+          simpa using hstep
+        · simp only [hc, if_false]
+          have hcc : (cid :: σ.tunneled).contains c = σ.tunneled.contains c := by
+            simp [List.contains_cons, hc]
+          rw [hcc]; exact hinv c
+      · intro c
+        simp only [hk, if_false]
+        by_cases hc : c = cid
+        · subst hc
+          have hkb : ((rstep auth (modes c) (σ.tunneled.contains c) (σ.conns c) e).2.kind == Kind.tunnel) = false := by
+            simpa using hk
+          simp only [hkb, Bool.or_false] at hstep
+          simpa using hstep
+        · simp only [hc, if_false]; exact hinv c
+
+/-- … from the start of the proxy -/
+theorem route_creds_confined (auth : Bool) (modes : Nat → Mode) (es : List (Nat × REv))
+    (cid : Nat) (o : ROut) (hx : (cid, o) ∈ rrun auth modes (RState.init modes) es)
+    (c : UpConn) (hc : o.conn = some c) (w : RWrite) (hw : w ∈ o.writes) (hcred : w.cred ≠ none) :
+    (partyOf (modes cid) c w = .proxy ∧ modes cid = .upstream) ∨
+    (partyOf (modes cid) c w = .reverseTarget ∧ modes cid = .reverse) :=
+  route_creds_only_to_proxy_or_reverse_target auth modes es _ (rinv_init modes) (cid, o) hx c hc w hw hcred
+
+-- non-vacuity: reuse, scheme change and a tunnel in one upstream-mode history
+example : (rrun true (fun _ => .upstream) (RState.init (fun _ => .upstream))
+    [(0, .req 1 80 false), (0, .req 1 80 false), (0, .req 1 443 true), (0, .connect 9 80), (0, .req 2 80 false)]).map
+      (fun x => (x.2.conn.map (·.idx), x.2.fresh, x.2.writes)) =
+    [(some 0, true, [⟨.request, some .proxyAuthorization⟩]),
+     (some 0, false, [⟨.request, some .proxyAuthorization⟩]),
+     (some 1, true, [⟨.connect, some .proxyAuthorization⟩, ⟨.request, none⟩]),
+     (none, false, []),
+     (some 2, true, [⟨.connect, some .proxyAuthorization⟩, ⟨.request, none⟩])] := by decide +kernel
+
 end Routing
 
 end MitmVerif.Props.C24
